@@ -9,6 +9,9 @@ from hypothesis import strategies as st
 from vlib import detsched
 
 
+REAL_TIMEOUT = 20.0
+
+
 class Outcome:
     def __init__(self):
         self.status = None  # "ok" | "err"
@@ -87,10 +90,25 @@ def execute(thunk, sc, trace=True, modules=None, extra=None, trace_tasks=None, f
         old = sys.getswitchinterval()
         sys.setswitchinterval(1e-6)
         before = set(threading.enumerate())
+        box = {}
+
+        def runner_thread():
+            try:
+                box["r"] = thunk()
+            except BaseException as e:  # noqa: B902
+                box["r"] = ("err", e)
+
         try:
-            out.status, out.value = thunk()
+            th = threading.Thread(target=runner_thread, daemon=True, name="verif-real-main")
+            th.start()
+            th.join(REAL_TIMEOUT)
+            if th.is_alive():
+                from vlib.runner import Inconclusive
+
+                raise Inconclusive(f"real-thread run did not finish within {REAL_TIMEOUT} s (no verdict in this mode)")
+            out.status, out.value = box["r"]
             out.alive_after = [t.name for t in threading.enumerate()
-                               if t not in before and t.is_alive()]
+                               if t not in before and t.is_alive() and t is not th]
             if after:
                 after(out)
         finally:
